@@ -20,8 +20,11 @@ Definition sz_at (l : list Z) (i : nat) : Z := nth i l (-1).
 (* every application call has returned (success, error or cancellation) and no deadline-less
    exchange (ping) is outstanding: what belongs to calls must be gone at once; what is kept
    for the peer's sake (cached replies, transfers the peer abandoned) may wait for its deadline *)
-Definition at_rest_class (sz : list Z) (live : Z) : N :=
-  if negb (sz_at sz 0 =? 0) then 1%N
+Definition at_rest_class (own_only : bool) (sz : list Z) (live : Z) : N :=
+  (* own_only: every block-wise send buffer of this side belongs to a call of its own application
+     (client role), so it must be gone when the calls have returned *)
+  if own_only && negb (sz_at sz 4 =? 0) then 5%N
+  else if negb (sz_at sz 0 =? 0) then 1%N
   else if negb (sz_at sz 1 =? 0) then 2%N
   else if negb (sz_at sz 2 =? 0) then 3%N
   else if negb ((sz_at sz 6 =? 0) && (sz_at sz 7 =? 0) && (sz_at sz 8 =? 0) && (sz_at sz 9 =? 0)) then 7%N
@@ -30,7 +33,7 @@ Definition at_rest_class (sz : list Z) (live : Z) : N :=
 
 (* ... and the housekeeping tick has passed every deadline: nothing but live observations *)
 Definition closed_class (sz : list Z) (live : Z) : N :=
-  match at_rest_class sz live with
+  match at_rest_class false sz live with
   | 0%N =>
       if negb (sz_at sz 3 =? 0) then 4%N
       else if negb (sz_at sz 4 =? 0) then 5%N
